@@ -111,9 +111,19 @@ def scenario(seed, buffered_mode):
             for _ in range(n):
                 kind, obj = rnd.choice(targets)
                 m = models[id(obj)]
-                h = (obj.document if inside_buffer else handle(kind, obj))   # inside a buffered block: the writing handle
-                same = True if inside_buffer else handle.last_same
-                d = apply_op(rnd, h, m, mems[id(obj)])
+                if kind == "job" and rnd.random() < 0.1:
+                    # Job.clear() / Job.reset(): the document is cleared like doc.clear() (there are no other data files here)
+                    same = inside_buffer or rnd.random() < 0.5
+                    jh = obj if same else signac.Project(p.path).open_job(id=obj.id)
+                    which = rnd.choice(["clear", "reset"])
+                    getattr(jh, which)()
+                    m.clear()
+                    h = jh.document
+                    d = f"job.{which}()"
+                else:
+                    h = (obj.document if inside_buffer else handle(kind, obj))   # inside a buffered block: the writing handle
+                    same = True if inside_buffer else handle.last_same
+                    d = apply_op(rnd, h, m, mems[id(obj)])
                 if d is None:
                     continue
                 if same:
@@ -255,7 +265,7 @@ def run(tier="quick", seed=0):
     for k in sorted(KNOWN_SEEN):
         if k.startswith("dep:"):
             failures.append({"key": k, "description": "known finding re-observed", "script": ""})
-    return {"scope": "1-3 jobs + the project document, 1-3 handles each (same / freshly opened), 4-12 random mapping operations (item/attribute set, del, update, setdefault, pop, clear, reset, "
+    return {"scope": "1-3 jobs + the project document, 1-3 handles each (same / freshly opened), 4-12 random mapping operations (item/attribute set, del, update, setdefault, pop, clear, reset, Job.clear() / Job.reset(), "
                      "nested dict and list mutation) over 10 JSON values; run unbuffered, fully inside signac.buffered() (capacities 0, 1, 64, default) and with nested buffered sub-blocks; "
                      "remove / state point change after a document access inside one buffered block (3 routes); "
                      "resets that trigger dependency findings F23/F24 are excluded",
